@@ -251,13 +251,17 @@ Print Assumptions C09_r_close_post_leave.
        ConsumerGroup.run, every ACCOUNTED generation function: heartbeat, commitLoop, unsubscribe
        waiter) has ended and every connection they held is closed.  What may still run are
        functions Generation.Start launched on an already closed generation (unaccounted by the
-       code) and the readLag goroutines (never joined by Close); without ReadLagInterval only the
-       former. *)
+       code), the readLag goroutines (never joined by Close) and the helper goroutine of a leader
+       lookup (Dialer.LookupPartition) that was abandoned because its context ended — but no lookup
+       CONNECTION is open any more (no ILookup): LookupPartition closes it on every way out of the
+       FUNCTION, which is also what lets the orphaned helper end (LInExit); without ReadLagInterval no
+       connection at all is open. *)
 Theorem C09_r_close_post_registry : forall c ls s, run step (init c) ls = Some s -> close_returned s = true ->
   live_acc s = 0 /\
   live s = unacc_live s + lag_live (lag s) + count (fun i => negb (idone i)) (inners s) /\
   conns s = count iconn (inners s) /\
-  (c_lag c = false -> live s = unacc_live s /\ conns s = 0).
+  (forall j, nth_error (inners s) j <> Some ILookup) /\
+  (c_lag c = false -> live s = unacc_live s + count (fun i => negb (idone i)) (inners s) /\ conns s = 0).
 Proof. exact close_post_registry. Qed.
 Print Assumptions C09_r_close_post_registry.
 
@@ -300,6 +304,19 @@ Theorem C09_r_generation_joined : forall c ls s, run step (init c) ls = Some s -
 Proof. exact generation_joined_proof. Qed.
 Print Assumptions C09_r_generation_joined.
 
+(* (6) the dial path of a partition reader (reader.initialize -> Dialer.DialLeader -> LookupPartition):
+       LFDial opens the lookup connection and starts the helper goroutine that reads the partitions
+       on it WITHOUT a deadline (ILookup); the function leaves through the answer / an error
+       (LFLookup) or through <-ctx.Done() (LFSeeCancel) and closes the connection on each of these
+       ways out.  Invariant: an open lookup connection always belongs to a partition reader that is
+       still inside LookupPartition — so none survives the function, whatever the broker does
+       (silent after accept, after ApiVersions, after the request, mid-response). *)
+Theorem C09_r_lookup_conn_owned : forall c ls s, run step (init c) ls = Some s ->
+  forall j, nth_error (inners s) j = Some ILookup ->
+    exists i f, nth_error (fetchers s) i = Some f /\ f_ph f = FLookup j.
+Proof. exact inv8_reach. Qed.
+Print Assumptions C09_r_lookup_conn_owned.
+
 (* ---- regressions of the three former defects (schedules in Model/Lifecycle.v): a FetchMessage
    after Close with a message still buffered returns io.EOF and leaves the buffer alone; a
    CommitMessages after Close returns io.ErrClosedPipe and r.commits stays empty; after a failed
@@ -320,7 +337,7 @@ Print Assumptions C09_r_regressions.
    call gets io.EOF, LeaveGroup is sent, everything is gone, a late FetchMessage gets io.EOF. ---- *)
 Definition exr_run : list label :=
   join_ok ++ [LRNextCall; LRNextGen; LRSub 1; LRStartC; LRStartU;
-   LFDial 0 DOk; LFOffsets 0 DOk; LFFetch 0; LFResp 0 (FData 1); LFPush 0; LFBatchEnd 0 false;
+   LFDial 0 DOk; LFLookup 0 DOk; LFOffsets 0 DOk; LFFetch 0; LFResp 0 (FData 1); LFPush 0; LFBatchEnd 0 false;
    LCall KRead; LFLock 0; LFRecv 0; LCCheck 0; LCEnq 0; LClTake 1; LClCommit 1 true; LCReply 0;
    LCall KFetch; LFLock 1; LHbTick 0 true;
    LCloseCall; LCloseCall; LCloseStep 0; LCloseStep 1; LCloseStep 0; LCloseStep 0; LCloseStep 1; LCloseStep 1;
@@ -349,6 +366,34 @@ Theorem C09_skeleton_assumptions :
 Proof. exact KV.Proofs.SkeletonWriter.writer_skeleton_ok. Qed.
 Print Assumptions C09_skeleton_assumptions.
 
+(* ---- Transport half, connection life cycle of a connGroup (Model/TransportConnect.v: grabConnOrConnect
+   and its connect helper, grabConn, releaseConn, idle timer, closeIdleConns, the release in conn.run).
+   A connection is in set-up, in use, pooled, closed — nowhere else: in a closed group
+   (CloseIdleConnections / Writer.Close of an owned Transport) nothing is pooled, and once no set-up
+   and no request is in progress any more every connection that was ever set up is closed; in
+   particular a set-up that completes after its requester left is pooled while the group is open and
+   closed when it is not (the helper's  if !g.releaseConn(c) { c.close() }). ---- *)
+From KV Require Model.TransportConnect Proofs.TransportConnectProofs.
+Theorem C09_t_closed_group_holds_nothing : forall ls s,
+  run KV.Model.TransportConnect.tc_step KV.Model.TransportConnect.tc_init ls = Some s ->
+  (KV.Model.TransportConnect.tc_closed s = true ->
+     forall i, nth_error (KV.Model.TransportConnect.tc_conns s) i <> Some KV.Model.TransportConnect.TPooled) /\
+  (KV.Model.TransportConnect.tc_closed s = true ->
+     forallb (fun c => negb (KV.Model.TransportConnect.tc_active c)) (KV.Model.TransportConnect.tc_conns s) = true ->
+     forallb (fun c => negb (KV.Model.TransportConnect.tc_open c)) (KV.Model.TransportConnect.tc_conns s) = true).
+Proof. exact KV.Proofs.TransportConnectProofs.tc_closed_pool_proof. Qed.
+Print Assumptions C09_t_closed_group_holds_nothing.
+
+Theorem C09_t_late_setup_pooled_or_closed : forall ls s i,
+  run KV.Model.TransportConnect.tc_step KV.Model.TransportConnect.tc_init ls = Some s ->
+  nth_error (KV.Model.TransportConnect.tc_conns s) i = Some (KV.Model.TransportConnect.TSetup false) ->
+  KV.Model.TransportConnect.tc_step s (KV.Model.TransportConnect.TSetupOk i) =
+    Some (KV.Model.TransportConnect.tc_set i
+            (if KV.Model.TransportConnect.tc_closed s then KV.Model.TransportConnect.TClosed
+             else KV.Model.TransportConnect.TPooled) s).
+Proof. exact KV.Proofs.TransportConnectProofs.tc_late_setup_proof. Qed.
+Print Assumptions C09_t_late_setup_pooled_or_closed.
+
 (* ---- the synchronisation skeleton the model assumes (which Go critical section / channel operation each step of Model/Lifecycle.v, Model/GroupReader.v, Model/ReaderModel.v stands for, reader_assumptions: Model/SkeletonAssumptions.v)
    holds of /repo's CURRENT source: call/access facts regenerated by harness/cmd/vskel on every run. *)
 From KV Require Model.SkeletonAssumptions Gen.Skeleton Proofs.SkeletonReader.
@@ -356,3 +401,12 @@ Theorem C09_reader_skeleton_assumptions :
   KV.Model.SkeletonAssumptions.reader_assumptions_hold KV.Gen.Skeleton.calls KV.Gen.Skeleton.accesses = true.
 Proof. exact KV.Proofs.SkeletonReader.reader_skeleton_ok. Qed.
 Print Assumptions C09_reader_skeleton_assumptions.
+
+(* ---- who closes a connection (lifecycle_assumptions L1, L2 of Model/SkeletonAssumptions.v): the lookup
+   connection of Dialer.LookupPartition(s) is closed by a defer of the function itself; the connect helper of
+   grabConnOrConnect closes a connection it can neither hand over nor pool — of /repo's CURRENT source. *)
+From KV Require Proofs.SkeletonLifecycle.
+Theorem C09_lifecycle_skeleton_assumptions :
+  KV.Model.SkeletonAssumptions.lifecycle_assumptions_hold KV.Gen.Skeleton.calls KV.Gen.Skeleton.accesses = true.
+Proof. exact KV.Proofs.SkeletonLifecycle.lifecycle_skeleton_ok. Qed.
+Print Assumptions C09_lifecycle_skeleton_assumptions.
